@@ -227,7 +227,7 @@ func (c *Client) CloseSocket() {
 func (c *Client) WaitClosed() {
 	select {
 	case <-c.srv.closed:
-	case <-time.After(3 * time.Second):
+	case <-time.After(15 * time.Second):
 	}
 }
 
@@ -249,7 +249,7 @@ func (c *Client) Take() []string {
 // Await waits until the client has received a packet whose rendering starts with prefix
 // (the acknowledgement of the request just sent), or the connection died, or 3 s passed.
 func (c *Client) Await(prefix string) bool {
-	deadline := time.Now().Add(3 * time.Second)
+	deadline := time.Now().Add(15 * time.Second)
 	for time.Now().Before(deadline) {
 		c.mu.Lock()
 		for _, g := range c.got {
@@ -274,6 +274,8 @@ func (b *Broker) Settle() {
 		}
 		return n
 	}
+	// every presence notification queued so far has been dispatched after this
+	b.Svc.VerifPresenceBarrier()
 	last, stable := total(), 0
 	deadline := time.Now().Add(2 * time.Second)
 	for stable < 3 && time.Now().Before(deadline) {
